@@ -192,7 +192,7 @@ func cmdCheck(args []string) int {
 		files = append(files, gen...)
 		fmt.Printf("generated %d router harness files from the current tree\n", len(gen))
 	}
-	if *prop == "C07" && os.Getenv("SYMGO_NO_GEN") == "" {
+	if (*prop == "C07" || *prop == "C11") && os.Getenv("SYMGO_NO_GEN") == "" {
 		// per-model isolation harnesses are produced from the current tree's types on every run
 		gtmp, gerr := os.MkdirTemp("", "symgo-modelgen-")
 		if gerr != nil {
